@@ -190,7 +190,7 @@ pub fn exec(p: &Program, ctx: &Context) -> R {
 }
 
 /// Context::default() plus the given variables (each converted to a fresh value)
-/// a reference value seen through serde: integers in the narrowest Rust type that holds them (i8 ... u64), strings,
+/// a reference value seen through serde: integers in one of the Rust types that hold them (i8 ... u64), strings,
 /// bytes, sequences, maps with keys of the same kinds, durations and timestamps through the crate's wrappers
 pub struct SerdeV<'a>(pub &'a V);
 
@@ -200,26 +200,25 @@ impl serde::Serialize for SerdeV<'_> {
         match self.0 {
             V::Null => z.serialize_unit(),
             V::Bool(b) => z.serialize_bool(*b),
+            // any width that holds the number, chosen by the number itself (so every width occurs, for small values too)
             V::Int(i) => {
-                if let Ok(x) = i8::try_from(*i) {
-                    z.serialize_i8(x)
-                } else if let Ok(x) = i16::try_from(*i) {
-                    z.serialize_i16(x)
-                } else if let Ok(x) = i32::try_from(*i) {
-                    z.serialize_i32(x)
-                } else {
-                    z.serialize_i64(*i)
+                let fits = [i8::try_from(*i).is_ok(), i16::try_from(*i).is_ok(), i32::try_from(*i).is_ok(), true];
+                let first = fits.iter().position(|f| *f).unwrap();
+                match first + (i.unsigned_abs() as usize ^ (*i < 0) as usize) % (4 - first) {
+                    0 => z.serialize_i8(*i as i8),
+                    1 => z.serialize_i16(*i as i16),
+                    2 => z.serialize_i32(*i as i32),
+                    _ => z.serialize_i64(*i),
                 }
             }
             V::UInt(u) => {
-                if let Ok(x) = u8::try_from(*u) {
-                    z.serialize_u8(x)
-                } else if let Ok(x) = u16::try_from(*u) {
-                    z.serialize_u16(x)
-                } else if let Ok(x) = u32::try_from(*u) {
-                    z.serialize_u32(x)
-                } else {
-                    z.serialize_u64(*u)
+                let fits = [u8::try_from(*u).is_ok(), u16::try_from(*u).is_ok(), u32::try_from(*u).is_ok(), true];
+                let first = fits.iter().position(|f| *f).unwrap();
+                match first + (*u as usize) % (4 - first) {
+                    0 => z.serialize_u8(*u as u8),
+                    1 => z.serialize_u16(*u as u16),
+                    2 => z.serialize_u32(*u as u32),
+                    _ => z.serialize_u64(*u),
                 }
             }
             V::Float(f) => z.serialize_f64(f.0),
